@@ -297,6 +297,49 @@ def lifecycle(ck):
     ck.sample({'lifecycle_walk': walks[0]})
 
 
+TWICE = {
+    'executable': "executable('same', ['a.c'])\nexecutable('same', ['b.c'])",
+    'static_library': "static_library('same', ['a.c'])\n"
+                      "static_library('same', ['b.c'])",
+    'object_file': "object_file('same', 'a.c')\nobject_file('same', 'b.c')",
+    'copy_file': "copy_file('same.txt', 'a.c')\ncopy_file('same.txt', 'b.c')",
+    'build_step': "build_step('same.txt', cmd=['true'])\n"
+                  "build_step('same.txt', cmd=['false'])",
+    'step-and-copy': "build_step('same.txt', cmd=['true'])\n"
+                     "copy_file('same.txt', 'a.c')",
+    'precompiled_header': "precompiled_header('same.h', 'h1.h')\n"
+                          "precompiled_header('same.h', 'h2.h')",
+    'pch-of-two-targets': "executable('p1', ['a.c'], pch='h1.h')\n"
+                          "executable('p2', ['b.c'], pch='h1.h', "
+                          "compile_options=['-DX'])",
+    'generated-source-and-object': "object_file('same', 'a.c')\n"
+                                   "copy_file('same.o', 'b.c')",
+    'in-submodule': "submodule('sub')",
+}
+
+
+def twice_case(arg):
+    what, backend = arg
+    root = scratch('verif-c05t-')
+    try:
+        src = os.path.join(root, 'src')
+        os.makedirs(os.path.join(src, 'sub'))
+        for n in ('a.c', 'b.c', 'sub/a.c', 'sub/b.c'):
+            open(os.path.join(src, n), 'w').write('int x;\n')
+        for n in ('h1.h', 'h2.h'):
+            open(os.path.join(src, n), 'w').write('#define H 1\n')
+        open(os.path.join(src, 'sub', 'build.bfg'), 'w').write(
+            TWICE['precompiled_header'].replace("'h1.h'", "'../h1.h'")
+            .replace("'h2.h'", "'../h2.h'") + '\n')
+        open(os.path.join(src, 'build.bfg'), 'w').write(
+            "project('p')\n" + TWICE[what] + '\n')
+        rc, out = bfg_configure(src, os.path.join(root, 'build'),
+                                backend=backend)
+        return {'ev': 'twice', 'what': what + '/' + backend, 'exit': rc}
+    finally:
+        shutil.rmtree(root, ignore_errors=True)
+
+
 def main(argv):
     ck = Check('C05', argv)
     # 1. design model: injective, clash exactly on extension-only difference
@@ -345,6 +388,12 @@ def main(argv):
     traces = []
     for i, (ev, out) in enumerate(res):
         traces.append({'id': i + 1, 'events': [ev]})
+    # one output path named by two steps of any kind: configuration fails
+    tw = pmap(twice_case, [(w, b) for w in sorted(TWICE)
+                           for b in ('make', 'ninja')])
+    ntw0 = len(traces)
+    for ev in tw:
+        traces.append({'id': len(traces) + 1, 'events': [ev]})
     ck.evaluations = len(traces)
     rej, st = validate_traces('ObjNames_Trace', cfg('trace'), traces,
                               defs=TDEFS,
@@ -353,6 +402,12 @@ def main(argv):
     ck.states += st['distinct']
     ck.transitions += st['generated']
     for tid, info in sorted(rej.items()):
+        if tid > ntw0:
+            ev = tw[tid - ntw0 - 1]
+            ck.report('C05:%s:%s' % (info[0], ev['what']),
+                      '%s: two steps naming one output configure with exit %d'
+                      % (ev['what'], ev['exit']), ev)
+            continue
         ev, out = res[tid - 1]
         clause = info[0]
         key = 'C05:%s:%s:%s' % (clause, ev['kind'],
